@@ -8,6 +8,8 @@ import (
 	"sort"
 	"sync"
 	"sync/atomic"
+	"syscall"
+	"time"
 )
 
 func parallelDo(n, workers int, fn func(i int)) {
@@ -83,7 +85,45 @@ func e5Alphabet(fx *Fixture, work string, rep *Report, prop string, thorough boo
 		if c.OutMode == "from-root" {
 			dir = sb.root
 		}
+		var fifoData []byte
+		fifoDone := make(chan bool, 1)
+		stopFifo := make(chan bool)
+		if c.OutMode == "fifo" {
+			// reader on the other end: non-blocking open, drained until the process has exited
+			go func() {
+				f, err := os.OpenFile(outAbs, os.O_RDONLY|syscall.O_NONBLOCK, 0)
+				if err != nil {
+					fifoDone <- true
+					return
+				}
+				defer f.Close()
+				buf := make([]byte, 1<<16)
+				stopped := false
+				for {
+					n, _ := f.Read(buf)
+					if n > 0 {
+						fifoData = append(fifoData, buf[:n]...)
+						continue
+					}
+					if stopped {
+						break
+					}
+					select {
+					case <-stopFifo:
+						stopped = true
+					case <-time.After(5 * time.Millisecond):
+					}
+				}
+				fifoDone <- true
+			}()
+			time.Sleep(20 * time.Millisecond)
+		}
 		r := fx.cli(dir, c.StdoutFull, nil, c.argv(outArg)...)
+		if c.OutMode == "fifo" {
+			close(stopFifo)
+			<-fifoDone
+			r.Fifo = fifoData
+		}
 		after := snapshotTree(sb.root)
 		atomic.AddInt64(&runs, 1)
 		if r.Exit != 0 {
@@ -357,4 +397,53 @@ func runE5(prop, tier string) int {
 	}
 	rep.Assume = []string{"strace -f -P <path> -e inject=<syscall>:error=<errno>:when=1 fails exactly the first such syscall on that path", "errno-level faults only (no torn writes / power loss)", "mtime is not judged"}
 	return rep.Finish()
+}
+
+// cliFlagSequences: two runs with different flag sets on the same -out path (no -rm); the file
+// must then be exactly what the second flag set generates (a run must not be skipped or
+// influenced because "the file is already there").
+func cliFlagSequences(fx *Fixture, work string, rep *Report, diagPrefix string) {
+	flagSets := [][]string{{}, {"-stub"}, {"-with-resets"}, {"-stub", "-with-resets"}, {"-skip-ensure", "-pkg", "cli_test"}}
+	ifsets := [][]string{{"A"}, {"A", "B", "E"}}
+	type sq struct {
+		a, b int
+		ifs  []string
+	}
+	var sqs []sq
+	for _, ifs := range ifsets {
+		for a := range flagSets {
+			for b := range flagSets {
+				if a != b {
+					sqs = append(sqs, sq{a, b, ifs})
+				}
+			}
+		}
+	}
+	var runs int64
+	parallelDo(len(sqs), nproc(), func(i int) {
+		s := sqs[i]
+		sb := fx.newSandbox(work, 1)
+		defer sb.remove()
+		out := "seq_moq_test.go"
+		mk := func(fl []string, toFile bool) []string {
+			a := append([]string{}, fl...)
+			if toFile {
+				a = append(a, "-out", out)
+			}
+			return append(append(a, "."), s.ifs...)
+		}
+		r1 := fx.cli(sb.pkg, false, nil, mk(flagSets[s.a], true)...)
+		r2 := fx.cli(sb.pkg, false, nil, mk(flagSets[s.b], true)...)
+		got, _ := os.ReadFile(filepath.Join(sb.pkg, out))
+		os.Remove(filepath.Join(sb.pkg, out))
+		ref := fx.cli(sb.pkg, false, nil, mk(flagSets[s.b], false)...)
+		atomic.AddInt64(&runs, 3)
+		if r1.Exit != 0 || r2.Exit != 0 || ref.Exit != 0 || !bytes.Equal(got, ref.Stdout) {
+			rep.Violate(&Violation{Diag: diagPrefix + "a run with other flags over an existing -out file does not leave its own output", Features: []string{"e5:flag-sequence"},
+				Case:   fmt.Sprintf("moq %v -out F . %v ; moq %v -out F . %v", flagSets[s.a], s.ifs, flagSets[s.b], s.ifs),
+				Detail: fmt.Sprintf("exit codes %d %d %d; file has %d bytes, the second flag set generates %d bytes", r1.Exit, r2.Exit, ref.Exit, len(got), len(ref.Stdout))})
+		}
+	})
+	rep.Add("evaluations", int(runs))
+	rep.Set("flag_sequence_pairs", len(sqs))
 }
